@@ -75,7 +75,7 @@ EXPECTED_CENSUS = {
     "solver.global_stmts": [],
     "solver.mutable_defaults": [],
     "solver.decorators": {"ivp_solver": ["parallelize"], "steady_state_transport_solver": []},
-    "utils.parallelize": "86a24ffa2c",
+    "utils.parallelize": "c08a301475",
     "fft_manager.get_fft_manager": "92b9be428e",
     "fft_manager.reset_fft_manager": "bfa0fb7d72",
     "fft_manager.fft2": "b85aeca20e",
